@@ -32,7 +32,7 @@ type c03Scn struct {
 var c03Ignorable = []string{"raw", "sack-beyond", "sack-gap0", "sack-gap-inverted", "sack-gap-outside", "fwd-stale", "unknown-chunk",
 	"initack", "cookieack", "cookieecho-bad", "init-established", "shutack", "shutcomp", "hback", "hb", "error", "data-dup", "data-beyond",
 	"badlen-short", "badlen-long", "init-badparam", "reconf-unknown-resp", "sack-old", "empty-packet", "abort-bad-checksum", "data-nodata",
-	"sack-far", "fwd-far", "data-far",
+	"sack-far", "fwd-far", "data-far", "sack-gap-multi",
 	"wrong-kind"} // (a chunk of the framing that was not negotiated: dropped with an ABORT, or not at all)
 var c03Forgeries = []string{"mutate", "sack-valid", "fwd-ahead", "data-new", "shutdown", "reconf-reset", "abort", "fwd-half"}
 
@@ -209,6 +209,22 @@ func c03Craft(s *vfSim, in *c03Inj, wire []vfWireEv) []byte {
 	case "sack-gap-inverted":
 		st := 2 + in.A%9
 		return mk(wChunk{Type: wtSACK, Cum: pk.CumAck, ARwnd: 1 << 20, Gaps: [][2]uint16{{uint16(st), uint16(st - 1 - in.B%2)}}})
+	case "sack-gap-multi":
+		// several gap blocks: the first and the last are about chunks really in flight, one in
+		// between (or their order) is impossible; the SACK as a whole must be dropped
+		n := pk.InflightN
+		if n < 3 {
+			return mk(wChunk{Type: wtSACK, Cum: pk.CumAck, ARwnd: 1 << 20, Gaps: [][2]uint16{{2, 2}, {uint16(40 + in.A%200), uint16(40 + in.A%200)}, {3, 3}}})
+		}
+		bad := uint16(n + 5 + in.A%300)
+		switch in.B % 3 {
+		case 0:
+			return mk(wChunk{Type: wtSACK, Cum: pk.CumAck, ARwnd: 1 << 20, Gaps: [][2]uint16{{1, 1}, {bad, bad}, {uint16(n), uint16(n)}}})
+		case 1:
+			return mk(wChunk{Type: wtSACK, Cum: pk.CumAck, ARwnd: 1 << 20, Gaps: [][2]uint16{{2, bad}, {uint16(n), uint16(n)}}})
+		default:
+			return mk(wChunk{Type: wtSACK, Cum: pk.CumAck, ARwnd: 1 << 20, Gaps: [][2]uint16{{1, 1}, {uint16(n), uint16(n)}, {bad, bad + 1}, {2, 2}}})
+		}
 	case "sack-gap-outside":
 		return mk(wChunk{Type: wtSACK, Cum: pk.CumAck, ARwnd: 1 << 20, Gaps: [][2]uint16{{uint16(1 + pk.InflightN + in.A%40), uint16(1 + pk.InflightN + in.A%40 + in.B%7)}}})
 	case "sack-valid":
